@@ -52,13 +52,39 @@ fn on_free(p: usize, size: usize) {
     let _ = WATCH_ON.try_with(|w| w.set(true));
 }
 
-// SAFETY: forwards to the system allocator; the hook only reads harness state.
+/// Byte buffers (alignment 1: `Box<[u8; N]>`, `Vec<u8>`, strings) are handed out at **odd** addresses:
+/// an allocator owes them no more than that, and bump/slab allocators of `no_std` kernels routinely do
+/// it, while the host's malloc never does.  Code that silently relies on its byte buffers being 2-, 4- or
+/// 8-aligned (zero-copy casts of receive buffers, …) behaves here as it would there.  The rule depends
+/// on the layout only, so it is applied consistently for the life of the process.
+#[inline]
+fn odd(l: &Layout) -> bool {
+    l.align() == 1 && l.size() > 0
+}
+#[inline]
+fn outer(l: &Layout) -> Layout {
+    // SAFETY: size + 1 cannot overflow isize for any allocation that can succeed; align 2 is a power of two.
+    unsafe { Layout::from_size_align_unchecked(l.size() + 1, 2) }
+}
+
+// SAFETY: forwards to the system allocator (byte buffers: one byte into an even-aligned block one byte
+// larger); the hook only reads harness state.
 unsafe impl GlobalAlloc for WatchAlloc {
     unsafe fn alloc(&self, l: Layout) -> *mut u8 {
+        if odd(&l) {
+            // SAFETY: same contract, for the enclosing block.
+            let p = unsafe { System.alloc(outer(&l)) };
+            return if p.is_null() { p } else { unsafe { p.add(1) } };
+        }
         // SAFETY: same contract.
         unsafe { System.alloc(l) }
     }
     unsafe fn alloc_zeroed(&self, l: Layout) -> *mut u8 {
+        if odd(&l) {
+            // SAFETY: same contract, for the enclosing block.
+            let p = unsafe { System.alloc_zeroed(outer(&l)) };
+            return if p.is_null() { p } else { unsafe { p.add(1) } };
+        }
         // SAFETY: same contract.
         unsafe { System.alloc_zeroed(l) }
     }
@@ -66,10 +92,25 @@ unsafe impl GlobalAlloc for WatchAlloc {
         if WATCH_ON.try_with(|w| w.get()).unwrap_or(false) {
             on_free(p as usize, l.size());
         }
+        if odd(&l) {
+            // SAFETY: `p` was returned by `alloc`/`alloc_zeroed`/`realloc` above for this layout.
+            unsafe { System.dealloc(p.sub(1), outer(&l)) };
+            return;
+        }
         // SAFETY: same contract.
         unsafe { System.dealloc(p, l) }
     }
     unsafe fn realloc(&self, p: *mut u8, l: Layout, n: usize) -> *mut u8 {
+        if odd(&l) {
+            if n == 0 {
+                // not reachable through the std collections; keep the contract anyway
+                return p;
+            }
+            // SAFETY: the enclosing block is resized in place or moved by the system allocator; its
+            // contents (including the one leading pad byte) are preserved.
+            let q = unsafe { System.realloc(p.sub(1), outer(&l), n + 1) };
+            return if q.is_null() { q } else { unsafe { q.add(1) } };
+        }
         // SAFETY: same contract.
         unsafe { System.realloc(p, l, n) }
     }
